@@ -59,7 +59,10 @@ def build(case):
 
 
 def relevant(mechanism):
-    return mechanism.startswith(('c06:', 'c05:aborted-without-failure', 'harness'))
+    # cancelling a finished task "does nothing": a cancellation that is still delivered shows up
+    # as a signal thrown into a finished runner (kernel monitors / run() failing with misuse)
+    return mechanism.startswith(('c06:', 'c05:aborted-without-failure', 'harness', 'kernel-',
+                                 'run-ended-with-coroutine-misuse'))
 
 
 def nontrivial(env, sess):
